@@ -534,13 +534,23 @@ class Interp:
         mode = fr.contract.assert_mode if fr.contract is not None else "raise"
         if mode == "prove":
             # the assertion must be unreachable-as-failure: an obligation
-            name = f"{fr.contract.short}#assert@{self._relline(s)}"
+            name = f"{fr.contract.short}#assert[{self._assert_ordinal(fr, s)}]"
             self.eng.check(name, t if not isinstance(t, bool) else t, line=s.lineno, kind="assert")
             self.eng.assume(t)
         else:
             if not self.decide(c):
                 msg = () if s.msg is None else ("assertion",)
                 self.raise_("AssertionError", *msg)
+
+    def _assert_ordinal(self, fr, s):
+        if not hasattr(fr, "asserts"):
+            fr.asserts = {}
+            k = 0
+            for n in ast.walk(fr.func.node):
+                if isinstance(n, ast.Assert):
+                    k += 1
+                    fr.asserts[id(n)] = k
+        return fr.asserts.get(id(s), 0)
 
     def _relline(self, s):
         fr = self.frames[-1]
@@ -657,7 +667,7 @@ class Interp:
                 # every path must leave the loop within `bound` iterations (complete when it passes: all
                 # paths are explored symbolically); reaching this point is a termination failure
                 self.eng.check(
-                    f"{fr.contract.short}#terminates[loop@{self._relline(s)}].within_{bound}_iterations",
+                    f"{fr.contract.short}#terminates[loop{fr.loops.get(id(s), 0)}].within_{bound}_iterations",
                     False,
                     line=s.lineno,
                     kind="termination",
